@@ -52,3 +52,53 @@ package analysis
 //@   loop 2 invariant rulesDone(program, dep, rangeindex)
 //@   loop 2 invariant forall ri int :: 0 <= ri && ri < rangeindex ==> program.Rules[ri].Head.Predicate in dep
 //@   loop 2 invariant forall pi int :: 0 <= pi && pi < rangeindex#2 + 1 && counted(program, rule.Premises[pi]) ==> edgeOK(dep, rule, rule.Premises[pi])
+
+// sccs (Kosaraju with recursive closures) is outside the verifier's subset: its contract is ASSUMED. Only the
+// partition part is used by the proof of Stratify's check loop.
+//@ func (dep depGraph) sccs()
+//@   trusted
+//@   requires wfGraph(dep)
+//@   modifies nothing
+//@   ensures forall j int :: 0 <= j && j < len(result) ==> result[j] != nil
+//@   ensures forall a int, b int, k ast.PredicateSym :: 0 <= a && a < b && b < len(result) ==> !(k in result[a] && k in result[b])
+//@   ensures forall k ast.PredicateSym :: k in dep ==> (exists j int :: 0 <= j && j < len(result) && k in result[j])
+//@   ensures forall k ast.PredicateSym, d ast.PredicateSym :: k in dep && d in dep[k] ==> (exists j int :: 0 <= j && j < len(result) && d in result[j])
+
+// sortResult renumbers the strata (the topological order itself comes from a recursive closure: not verified).
+//@ func (dep depGraph) sortResult(strata, predToStratumMap)
+//@   trusted
+//@   modifies nothing
+//@   ensures len(ret0) == len(strata)
+//@   ensures forall k ast.PredicateSym :: (k in ret1) == (k in predToStratumMap)
+//@   ensures forall a ast.PredicateSym, b ast.PredicateSym :: a in predToStratumMap && b in predToStratumMap ==> ((ret1[a] == ret1[b]) == (predToStratumMap[a] == predToStratumMap[b]))
+//@   ensures forall k ast.PredicateSym :: k in predToStratumMap ==> 0 <= ret1[k] && ret1[k] < len(ret0) && ret0[ret1[k]] == strata[predToStratumMap[k]]
+
+//@ spec func negEdge(dep depGraph, a ast.PredicateSym, b ast.PredicateSym) bool = a in dep && b in dep[a] && dep[a][b]
+//@ spec func placed(m map[ast.PredicateSym]int, strata []Nodeset, n int) bool =
+//@      (forall j int, k ast.PredicateSym :: 0 <= j && j < n && k in strata[j] ==> k in m && m[k] == j)
+//@      && (forall k ast.PredicateSym :: k in m ==> 0 <= m[k] && m[k] < len(strata) && k in strata[m[k]])
+//@ spec func cleanUpTo(dep depGraph, strata []Nodeset, n int) bool =
+//@      forall j int, a ast.PredicateSym, b ast.PredicateSym :: 0 <= j && j < n && a in strata[j] && negEdge(dep, a, b) ==> !(b in strata[j])
+
+// Acceptance means: no negated or aggregated dependency stays inside one layer.
+//@ func Stratify(program)
+//@   ensures err == nil ==> (forall ri int, pi int :: 0 <= ri && ri < len(program.Rules) && 0 <= pi && pi < len(program.Rules[ri].Premises)
+//@             && counted(program, program.Rules[ri].Premises[pi]) && (negated(program.Rules[ri].Premises[pi]) || isDo(program.Rules[ri]))
+//@             ==> program.Rules[ri].Head.Predicate in ret1 && pred(program.Rules[ri].Premises[pi]) in ret1
+//@                 && ret1[program.Rules[ri].Head.Predicate] != ret1[pred(program.Rules[ri].Premises[pi])])
+//@   loop 1 invariant 0 <= rangeindex + 1 && rangeindex + 1 <= len(strata)
+//@   loop 1 invariant forall k ast.PredicateSym :: k in predToStratum ==> predToStratum[k] <= rangeindex
+//@   loop 1 invariant placed(predToStratum, strata, rangeindex + 1) && cleanUpTo(dep, strata, rangeindex + 1)
+//@   loop 2 invariant 0 <= rangeindex && rangeindex < len(strata) && c == strata[rangeindex] && i == rangeindex
+//@   loop 2 invariant forall k ast.PredicateSym :: k in predToStratum ==> predToStratum[k] <= rangeindex
+//@   loop 2 invariant placed(predToStratum, strata, rangeindex) && cleanUpTo(dep, strata, rangeindex)
+//@   loop 2 invariant forall k ast.PredicateSym :: k in seen ==> k in c && k in predToStratum && predToStratum[k] == i
+//@   loop 3 invariant 0 <= rangeindex && rangeindex < len(strata) && c == strata[rangeindex] && i == rangeindex
+//@   loop 3 invariant forall k ast.PredicateSym :: k in predToStratum ==> predToStratum[k] <= rangeindex
+//@   loop 3 invariant placed(predToStratum, strata, rangeindex + 1) && cleanUpTo(dep, strata, rangeindex)
+//@   loop 3 invariant forall a ast.PredicateSym, b ast.PredicateSym :: a in seen && negEdge(dep, a, b) ==> !(b in c)
+//@   loop 4 invariant 0 <= rangeindex && rangeindex < len(strata) && c == strata[rangeindex] && i == rangeindex
+//@   loop 4 invariant forall k ast.PredicateSym :: k in predToStratum ==> predToStratum[k] <= rangeindex
+//@   loop 4 invariant placed(predToStratum, strata, rangeindex + 1) && cleanUpTo(dep, strata, rangeindex)
+//@   loop 4 invariant forall a ast.PredicateSym, b ast.PredicateSym :: a in seen3 && a != sym#2 && negEdge(dep, a, b) ==> !(b in c)
+//@   loop 4 invariant sym#2 in c && (forall b ast.PredicateSym :: b in seen && negEdge(dep, sym#2, b) ==> !(b in c))
